@@ -32,3 +32,34 @@ endef
 $(foreach c,$(ASAN_CHECKS),$(eval $(call ASAN_RULE,$(c))))
 
 -include $(wildcard $(B)/dep/*.d)
+
+# ---- C41: thread-safe build under the deterministic scheduler ---------------
+PLAIN_FLAGS := -O1 -g -fno-omit-frame-pointer -Wall
+TSAN_WRAPS := __tsan_atomic32_fetch_add __tsan_atomic32_fetch_sub __tsan_atomic32_exchange \
+  __tsan_atomic64_fetch_add __tsan_atomic64_fetch_sub __tsan_atomic64_exchange \
+  __tsan_atomic8_load __tsan_atomic32_load __tsan_atomic64_load __tsan_atomic32_store __tsan_atomic64_store \
+  __tsan_atomic32_compare_exchange_strong __tsan_atomic32_compare_exchange_weak \
+  __tsan_atomic64_compare_exchange_strong __tsan_atomic64_compare_exchange_weak \
+  __cxa_guard_acquire __cxa_guard_release __cxa_guard_abort
+comma := ,
+WRAPFLAGS := $(foreach s,$(TSAN_WRAPS),-Wl$(comma)--wrap=$(s))
+
+c41: $(B)/bin/c41_tsan
+
+$(B)/obj/sched.o: sim/sched.cpp sim/sched.h sim/rng.h
+	@mkdir -p $(B)/obj
+	$(CXX) $(PLAIN_FLAGS) -c -o $@ sim/sched.cpp
+$(B)/obj/wraps_tsan.o: sim/wraps_tsan.cpp sim/sched.h
+	@mkdir -p $(B)/obj
+	$(CXX) $(PLAIN_FLAGS) -c -o $@ sim/wraps_tsan.cpp
+$(B)/bin/c41_tsan: checks/c41_threads.cpp $(SIMHDR) $(B)/obj/sched.o $(B)/obj/wraps_tsan.o $(B)/tsan_ts/symengine/libsymengine.a
+	@mkdir -p $(B)/bin $(B)/dep
+	$(CXX) $(TSAN_FLAGS) $(call inc,tsan_ts) -MMD -MF $(B)/dep/c41_tsan.d -o $@ checks/c41_threads.cpp $(B)/obj/sched.o $(B)/obj/wraps_tsan.o $(B)/tsan_ts/symengine/libsymengine.a -lgmp -lpthread $(WRAPFLAGS)
+
+$(B)/obj/wraps_guard.o: sim/wraps_guard.cpp sim/sched.h
+	@mkdir -p $(B)/obj
+	$(CXX) $(PLAIN_FLAGS) -c -o $@ sim/wraps_guard.cpp
+GUARD_WRAPS := -Wl,--wrap=__cxa_guard_acquire -Wl,--wrap=__cxa_guard_release -Wl,--wrap=__cxa_guard_abort
+$(B)/bin/c41_asan: checks/c41_threads.cpp $(SIMHDR) $(B)/obj/sched.o $(B)/obj/wraps_guard.o $(B)/asan_ts/symengine/libsymengine.a
+	@mkdir -p $(B)/bin $(B)/dep
+	$(CXX) $(ASAN_FLAGS) $(call inc,asan_ts) -MMD -MF $(B)/dep/c41_asan.d -o $@ checks/c41_threads.cpp $(B)/obj/sched.o $(B)/obj/wraps_guard.o $(B)/asan_ts/symengine/libsymengine.a -lgmp -lpthread $(GUARD_WRAPS)
